@@ -167,12 +167,13 @@ COQ_HEADER = "From TkModel Require Import Base Dec.\n"
 def coq_eval(prop, imports, terms, timeout=900, width=16):
     """Evaluate Gallina terms of type N with vm_compute, sharded over coqc processes.
     Returns list of ints (or None where evaluation failed)."""
-    d = os.path.join(CACHE, "cases", prop)
+    # one directory per process: concurrent checks of the same property (other seeds, other trees) never share files
+    d = os.path.join(CACHE, "cases", prop, "p%d" % os.getpid())
     shutil.rmtree(d, ignore_errors=True)
     os.makedirs(d, exist_ok=True)
     n = len(terms)
     if n == 0:
-        return []
+        return [], []
     nsh = min(width, max(1, n // 8)) if n >= 8 else 1
     shards = [[] for _ in range(nsh)]
     for i, t in enumerate(terms):
@@ -199,6 +200,8 @@ def coq_eval(prop, imports, terms, timeout=900, width=16):
                 errs.append((e or o)[-1500:])
             for m in re.finditer(r"=\s*\((\d+)%N,\s*(.*?)\)\s*\n\s*:", o, re.S):
                 results[int(m.group(1))] = m.group(2).strip()
+    if not errs:
+        shutil.rmtree(d, ignore_errors=True)      # kept only for diagnosis of a failed evaluation
     return results, errs
 
 
